@@ -501,7 +501,8 @@ def eval_cell(t, env):
     atom is not bound."""
     if isinstance(t, R):
         a = t.single_atom()
-        if a is not None and (a in env or a[0] in ("const", "cmp", "and", "or", "not", "ite", "floordiv", "mod", "in", "notin")):
+        if a is not None and (a in env or a[0] in ("const", "cmp", "and", "or", "not", "ite", "floordiv", "mod", "in", "notin") or
+                              (a[0] == "call" and a[1] in ("max", "min"))):
             return _eval_atom(a, env)
         def poly(p):
             acc = Fraction(0)
@@ -532,6 +533,9 @@ def _eval_atom(a, env):
     k = a[0]
     if k == "const":
         return a[1]
+    if k == "call" and a[1] in ("max", "min") and len(a[2]) >= 2 and not a[3]:
+        vals = [eval_cell(x, env) for x in a[2]]
+        return max(vals) if a[1] == "max" else min(vals)
     if k == "cmp":
         op, d = a[1], a[2]
         # symbolic constants compare by identity: evaluate both sides of d = lhs - rhs
@@ -710,6 +714,9 @@ def collected(tr, t):
     """(element, count, event) when t is a list holding one value per repetition of `for _ in range(count)`, written either as
     a loop appending to an initially empty list or as a comprehension; None otherwise."""
     a = t.single_atom() if isinstance(t, T.R) else None
+    while a is not None and a[0] == "call" and a[1] in ("list", "tuple", "numpy.array", "numpy.asarray") and len(a[2]) == 1 and not a[3]:
+        t = a[2][0]   # list(<the collected values>): the same values in the same order
+        a = t.single_atom() if isinstance(t, T.R) else None
     if a is None:
         return None
 
